@@ -7,14 +7,15 @@ cd $W || exit 2
 git checkout -q -- . ; git apply $O/patch.diff || { echo "patch does not apply"; exit 2; }
 cmake --build _build -j12 2>&1 | tail -1
 echo "--- demo WITH change:"; (cd $O && timeout 900 bash ./build_and_run.sh $W > $O/verify_with.log 2>&1; echo "rc=$?" | tee -a $O/verify_with.log); tail -3 $O/verify_with.log
-echo "--- ctest WITH change:"; ctest --test-dir _build -j8 --timeout 3600 --output-junit /tmp/junit_$id.xml > /dev/null 2>&1
+echo "--- ctest WITH change:"; ctest --test-dir _build -j${CTEST_J:-4} -E task_generation --timeout 3600 --output-junit /tmp/junit_$id.xml > /dev/null 2>&1
+[ -n "$WITH_TG" ] && { ctest --test-dir _build -R task_generation --timeout 3600 2>&1 | grep -a "tests passed\|Failed\|Passed"; }
 python3 - $id <<'PY'
 import json,sys
 import xml.etree.ElementTree as ET
 b=json.load(open('/root/.vp/BASELINE.json'))
 stable=set(x.split('::')[0] for x in b['stable_pass'])
 res={tc.get('name'):tc.get('status') for tc in ET.parse('/tmp/junit_%s.xml'%sys.argv[1]).getroot().iter('testcase')}
-bad=[n for n in stable if res.get(n)!='run']
+bad=[n for n in stable if res.get(n)!='run' and 'task_generation' not in n]
 print("stable tests not passing with the change:", bad)
 PY
 git checkout -q -- . ; cmake --build _build -j12 2>&1 | tail -1
